@@ -299,10 +299,11 @@ fn parse_fp_value(s: &str) -> Option<u32> {
         let (sg, sl) = bits(t[1])?;
         let (ex, el) = bits(t[2])?;
         let (mn, ml) = bits(t[3])?;
-        if sl != 1 || el != 8 || ml != 23 {
+        // reduced-width models (8 exponent bits, fewer significand bits) are binary32 values with a zero tail
+        if sl != 1 || el != 8 || ml == 0 || ml > 23 {
             return None;
         }
-        return Some(sg << 31 | ex << 23 | mn);
+        return Some(sg << 31 | ex << 23 | mn << (23 - ml));
     }
     None
 }
@@ -372,6 +373,14 @@ pub struct SolverStats {
     pub cross_checked: u64,
     pub cross_disagree: u64,
     pub cbmc_decided: u64,
+    /// reduced-width queries (asked only after every full-width back end gave up)
+    pub narrow_queries: u64,
+    pub narrow_unsat: u64,
+    pub narrow_sat: u64,
+    pub narrow_unknown: u64,
+    pub narrow_time_s: f64,
+    pub narrow_cross_checked: u64,
+    pub narrow_cross_disagree: u64,
 }
 
 pub struct Solver {
@@ -385,6 +394,9 @@ pub struct Solver {
     pub cross_every: u64,
     pub dump_dir: Option<String>,
     pub cbmc_fallback: bool,
+    /// significand bits of the reduced-width fall-back (0: off) and its cap
+    pub narrow_sb: u32,
+    pub narrow_timeout_s: u64,
 }
 
 fn h64(s: &str) -> u64 {
@@ -457,6 +469,36 @@ pub fn run_cvc5(text: &str, nvars: usize, timeout_s: u64) -> Verdict {
     }
 }
 
+/// The same query over a reduced-width float format (8 exponent bits as binary32, `sb` significand bits including
+/// the hidden one): every sort, constant (rounded to nearest even) and operation is re-typed.  This is the
+/// "shrink the width and state the smaller bound" fall-back for queries no back end decides at full width;
+/// its `unsat` is a verdict about the narrow arithmetic only, its `sat` is a candidate that counts only if it
+/// reproduces in binary32 on the DAG.
+pub fn narrow_text(text: &str, sb: u32) -> String {
+    let fp = format!("(_ FloatingPoint 8 {})", sb);
+    let mut out = String::with_capacity(text.len() + text.len() / 4);
+    let pat = "((_ to_fp 8 24) #x";
+    let mut rest = text;
+    while let Some(p) = rest.find(pat) {
+        out.push_str(&rest[..p]);
+        let tail = &rest[p + pat.len()..];
+        let hex: String = tail.chars().take_while(|c| c.is_ascii_hexdigit()).collect();
+        // tail continues with ")"
+        out.push_str(&format!("((_ to_fp 8 {}) RNE ((_ to_fp 8 24) #x{}))", sb, hex));
+        rest = &tail[hex.len() + 1..];
+    }
+    out.push_str(rest);
+    out.replace("(_ FloatingPoint 8 24)", &fp).replace("(_ +zero 8 24)", &format!("(_ +zero 8 {})", sb))
+}
+
+pub fn run_cvc5_narrow(text: &str, nvars: usize, timeout_s: u64) -> Verdict {
+    let tl = format!("--tlimit={}", timeout_s * 1000);
+    match run_process("cvc5", &["--lang", "smt2", "--produce-models", "--fp-exp", &tl], text, timeout_s) {
+        Ok(out) => interpret(&out, nvars),
+        Err(e) => Verdict::Unknown(e),
+    }
+}
+
 pub fn run_z3(text: &str, nvars: usize, timeout_s: u64) -> Verdict {
     let tl = format!("-T:{}", timeout_s);
     match run_process("z3", &["-in", "-smt2", &tl], text, timeout_s) {
@@ -518,6 +560,8 @@ impl Solver {
             cross_every: std::env::var("VERIF_CROSS_EVERY").ok().and_then(|s| s.parse().ok()).unwrap_or(0),
             dump_dir: std::env::var("VERIF_DUMP").ok(),
             cbmc_fallback: std::env::var("VERIF_CBMC").map(|v| v == "1").unwrap_or(false),
+            narrow_sb: std::env::var("VERIF_NARROW_SB").ok().and_then(|s| s.parse().ok()).unwrap_or(11),
+            narrow_timeout_s: std::env::var("VERIF_NARROW_TIMEOUT").ok().and_then(|s| s.parse().ok()).unwrap_or(0),
         }
     }
 
@@ -637,6 +681,58 @@ impl Solver {
             }
             self.cache_put(*key, &q.text, &v);
         }
+    }
+
+    /// The reduced-width version of a query that was given up at full width (cvc5 `--fp-exp`; every 5th decided
+    /// one is repeated on z3, which supports arbitrary float formats natively).
+    pub fn check_narrow(&mut self, q: &Query) -> Verdict {
+        if q.unsupported.is_some() || self.narrow_timeout_s == 0 || self.narrow_sb < 2 || self.narrow_sb > 23 {
+            return Verdict::Unknown("reduced width not attempted".into());
+        }
+        let text = narrow_text(&q.text, self.narrow_sb);
+        let key = h64(&text);
+        if let Some(v) = self.cache_get(key, &text) {
+            return v;
+        }
+        if let Some(cap) = self.gave_up.get(&key) {
+            if *cap >= self.narrow_timeout_s {
+                return Verdict::Unknown("timeout at reduced width (same query gave up before)".into());
+            }
+        }
+        let t0 = Instant::now();
+        let v = run_cvc5_narrow(&text, q.vars.len(), self.narrow_timeout_s);
+        let dt = t0.elapsed().as_secs_f64();
+        self.stats.narrow_queries += 1;
+        self.stats.narrow_time_s += dt;
+        match &v {
+            Verdict::Unsat => self.stats.narrow_unsat += 1,
+            Verdict::Sat(_) => self.stats.narrow_sat += 1,
+            Verdict::Unknown(_) => {
+                self.stats.narrow_unknown += 1;
+                self.gave_up.insert(key, self.narrow_timeout_s);
+            }
+        }
+        if !matches!(v, Verdict::Unknown(_)) && (self.stats.narrow_unsat + self.stats.narrow_sat) % 5 == 1 {
+            let v2 = run_z3(&text, q.vars.len(), self.narrow_timeout_s.min(20));
+            match (&v, &v2) {
+                (Verdict::Unsat, Verdict::Sat(_)) | (Verdict::Sat(_), Verdict::Unsat) => {
+                    self.stats.narrow_cross_checked += 1;
+                    self.stats.narrow_cross_disagree += 1;
+                }
+                (_, Verdict::Unknown(_)) => {}
+                _ => self.stats.narrow_cross_checked += 1,
+            }
+        }
+        if let Some(d) = &self.dump_dir {
+            let tag = match &v {
+                Verdict::Unsat => "unsat",
+                Verdict::Sat(_) => "sat",
+                Verdict::Unknown(_) => "unknown",
+            };
+            let _ = std::fs::write(format!("{}/{:016x}.narrow.{}.smt2", d, key, tag), &text);
+        }
+        self.cache_put(key, &text, &v);
+        v
     }
 
     /// Decide satisfiability of the query; `Unknown` covers time-outs, errors and unsupported operations.
